@@ -13,7 +13,12 @@ trait-level spec fns pre / post (spec/u_walk_spec.rs):
 plus panic-freedom of the walk (no id overflow under the budget ids_X, no unreachable!() on scoper input, the expect() of found_container_1).
 The Analyzer methods the walk calls are re-verified under their U-SCOPE / U-VARS contracts (imported verbatim).  Types: the real
 alpha AST incl. value_type.rs (emit_types, as U-MUTW / U-CONST); Location, lexer::Error, DeclarationFlag, EnumSet opaque.
-NOT in the unit: the top-level `analyze`, predeclare (U-SCOPE), postanalyze, obtain_container_depth, determine_container_depths (U-SCOPE)."""
+Also in the unit (C11): Analyzer::found_container, the walk over a member's / constant's TYPE that feeds found_container_1 - VERIFIED: a type
+records a dependency on exactly what it holds by value (by_value: the structure / word itself, the element type of every array flavour INCLUDING
+array views `[]T` and `&[]T`, the constant naming an array length; nothing behind `&T` or a structure view, nothing for primitives), one
+found_container_1 after the other up to the first rejection (recorded_all); and the TOP LEVEL: analyze (predeclare pass, walk pass,
+determine_container_depths, postanalyze pass), postanalyze, obtain_container_depth - so the trait-level pre of the walk is DISCHARGED there.
+predeclare, declare_constant / declare_struct / declare_function and determine_container_depths are re-verified under their U-SCOPE contracts."""
 from vlib import rules
 from units.u_align import emit_types, import_contracts
 from units.u_mutw_rules import r3_option_map_path
@@ -36,22 +41,22 @@ def inject(after_brace_text):
 
 
 def specs(pre, post):
-    return inject('\topen spec fn pre(self, a: Analyzer) -> bool { %s }\n\topen spec fn post(self, a0: Analyzer, a1: Analyzer) -> bool { %s }' % (pre, post))
+    return inject('\topen spec fn pre(self, a: Analyzer) -> bool { %s }\n\topen spec fn post(self, r: Self, a0: Analyzer, a1: Analyzer) -> bool { %s }' % (pre, post))
 
 
 def build(u):
     u.load_contracts('contracts/u_walk.vc')
     u.notes += [
-        'ASSUMED (external body, real signature and text sliced): Analyzer::found_container - frame same_names(old, final): it changes nothing but the '
-        'dependency sets of containers (it only calls found_container_1, whose verified contract says so, and itself) and does not panic',
+        'TRUSTED wrapper walk_clone_depth (rule WK4, body `d.clone()` on Option<Poisonable<u32>>: the copy equals the original)',
         'opaque stand-ins, result unconstrained (prelude/walk_std.rs): walk_with_main_flag for `flags | DeclarationFlag::Main` (rule WK2), '
         'walk_str_is for `match name.as_str() { "main" => .. }` (rule WK3): the scope discipline does not depend on either',
         'rules: R1 (into_iter().map().collect() -> loop), R3 (Option::map -> match), WK1 (Result::and_then with a closure capturing `&mut analyzer` -> match; '
         '`?` inside such a closure is the value of the and_then), plus the U-SCOPE / U-VARS rules on the Analyzer methods',
         'trusted as in U-SCOPE / U-VARS (Option::flatten, HashSet::clone, union / difference / retain wrappers, [T]::reverse, vstd specs, derived Clone identity)',
-        'caller obligations carried by the trait-level pre (not discharged in the unit: they belong to the top-level analyze): inv = the constant under analysis '
-        'and everything visible inside a constant initialiser are containers + the constant layer holds containers; the ids fit (resolution_id + ids_X(node) <= u32::MAX, '
-        'which also excludes typer-inserted nodes); statements are not analysed inside a constant initialiser; a Constant declaration is analysed with only the constant layer open and is predeclared',
+        'the trait-level pre of the walk (lookup invariant inv, id budget, no constant under analysis between declarations, only the constant layer open, '
+        'every constant / structure predeclared with its own container, types resolved before the wellfoundedness check) is DISCHARGED by `analyze` from two '
+        'preconditions on the parsed module: program_fits (1 + number of declarations + ids the walk consumes <= u32::MAX; BAD for typer-inserted nodes) and '
+        'types_named (no `UnresolvedStructOrWord { identifier: None }` by value in a constant or member type: found_container has unreachable!() there)',
         'PROVED inside the unit: "an open scope when declaring" for every variable / parameter / member (Statement / Parameter / Member require two layers; Block, FunctionBody, '
         'Declaration::{Function, FunctionHead, Structure} establish them with push_scope before the first declaration)',
         'not caught by a frame contract: the ORDER of analysing a value and declaring its variable inside Statement::Declaration (both orders leave the same stack)',
@@ -59,7 +64,8 @@ def build(u):
     import_contracts(u, 'contracts/u_vars.vc', ['impl Analyzer :: fn %s' % f for f in (
         'push_scope', 'pop_scope', 'declare_variable', 'declare_parameter', 'use_variable', 'prepare_to_prune_at_goto', 'prune_at_label')])
     import_contracts(u, 'contracts/u_scope.vc', ['impl From<Error> for Poison :: fn from'] + ['impl Analyzer :: fn %s' % f for f in (
-        'found_container_1', 'use_containee', 'declare_member', 'use_struct', 'use_constant', 'use_function')])
+        'found_container_1', 'use_containee', 'declare_member', 'use_struct', 'use_constant', 'use_function',
+        'declare_constant', 'declare_struct', 'declare_function', 'determine_container_depths')] + ['fn predeclare'])
     emit_types(u, [])
     u.opaque += ['DeclarationFlag', 'EnumSet<T>']
     u.include('prelude/mutw_std.rs')
@@ -98,10 +104,10 @@ def build(u):
     R1 = rules.r1_r2_map_collect(min_count=0)
     R3 = rules.r3_option_map_if_present
     W = [R1, WR.wk1_result_and_then]
-    u.emit(F, 'trait Analyzable', pre=inject('\tspec fn pre(self, a: Analyzer) -> bool;\n\tspec fn post(self, a0: Analyzer, a1: Analyzer) -> bool;'))
+    u.emit(F, 'trait Analyzable', pre=inject('\tspec fn pre(self, a: Analyzer) -> bool;\n\tspec fn post(self, r: Self, a0: Analyzer, a1: Analyzer) -> bool;'))
     LK = lambda w: specs('pre_lookup(a, %s)' % w, 'looked_up(a0, a1, %s)' % w)
     u.emit(F, 'impl Analyzable for Declaration', rules=W + [WR.wk2_main_flag, WR.wk3_str_match], pre=specs('pre_d(self, a)', 'looked_up(a0, a1, ids_d(self))'))
-    u.emit(F, 'impl Analyzable for Member', rules=W, pre=specs('pre_local(a, 1, 2)', 'post_local(a0, a1, 1, name_of(self.name))'))
+    u.emit(F, 'impl Analyzable for Member', rules=W, pre=specs('pre_local(a, 1, 2)', 'post_local(a0, a1, 1, name_of(self.name)) && type_resolved(self.value_type, r.value_type, a1) && (r.name is Ok ==> self.name is Ok)'))
     u.emit(F, 'impl Member', rules=W)
     u.emit(F, 'impl Analyzable for Parameter', rules=W, pre=specs('pre_local(a, 1, 2)', 'post_local(a0, a1, 1, name_of(self.name))'))
     u.emit(F, 'impl Analyzable for FunctionBody', rules=W + [r3_option_map_path('self.return_value')], pre=specs('pre_local(a, ids_f(self), 1)', 'looked_up(a0, a1, ids_f(self))'))
@@ -112,5 +118,19 @@ def build(u):
     u.emit(F, 'impl Analyzable for Expression', rules=W, pre=LK('ids_e(self)'))
     u.emit(F, 'impl Analyzable for Reference', rules=W, pre=LK('ids_r(self)'))
     u.emit(F, 'impl Analyzable for ReferenceStep', rules=W, pre=LK('ids_step(self)'))
-    u.emit(F, 'impl Analyzable for Poisonable<ValueType>', rules=W, pre=LK('0'))
+    u.emit(F, 'impl Analyzable for Poisonable<ValueType>', rules=W, pre=specs('pre_lookup(a, 0)', 'looked_up(a0, a1, 0) && type_resolved(self, r, a1)'))
     u.emit(F, 'fn analyze_type', rules=W)
+    # ---- the top level: predeclare (+ declare_constant / declare_struct / declare_function), determine_container_depths under their U-SCOPE
+    # contracts; obtain_container_depth, postanalyze, analyze under contracts of this unit
+    consts = SR.sc1_chain_find('Container', 'Identifier', 'b == !x.is_structure', '*r == x.identifier', BY_NAME,
+                               filter_label='C11.scope.constant_lookup_skips_structures', map_label='C11.scope.lookup_projects_the_declared_identifier',
+                               find_label='C11.scope.lookup_is_by_name')
+    RD = [rules.only_for([':: fn declare_struct'], structs), rules.only_for([':: fn declare_constant'], consts),
+          SR.r14_named('Identifier', BY_NAME, find_label='C11.scope.lookup_is_by_name')]
+    u.emit(F, IMPL, only=['declare_constant', 'declare_struct', 'declare_function'], rules=RD)
+    u.emit(F, IMPL, only=['determine_container_depths'], rules=[SR.sc5_for_mut, SR.sc7_hashset_difference])
+    u.emit(F, IMPL, only=['obtain_container_depth'], rules=[WR.wk4_clone_depth,
+           SR.r14_named('Container', 'b == (x.identifier.resolution_id == identifier.resolution_id)', find_label='C11.scope.depth_is_read_from_the_container_of_that_id')])
+    u.emit(F, 'fn predeclare')
+    u.emit(F, 'fn postanalyze')
+    u.emit(F, 'fn analyze', rules=[R1])
